@@ -249,7 +249,7 @@ func g1(c *vf.Ctx, a *xalg, path string, reduced bool) {
 			}
 		}
 	}
-	c.ParallelFor(len(cases), func(i int) {
+	pfor(c, a.name+" section G1", len(cases), func(i int) {
 		g := cases[i]
 		// how much of the stream this case looks at
 		span := a.total(g.size)
@@ -410,7 +410,8 @@ func g2(c *vf.Ctx, a *xalg) {
 				cat, _, _ := strings.Cut(mis, " | ")
 				return a.class("history: " + cat)
 			},
-			Run: func(hist []xop) (string, bool, string) {
+			Run: func(hist []xop) (key string, stop bool, mis string) {
+				defer recoverRun(&stop, &mis)
 				x, err := a.newXOF(cf.size, cf.key)
 				if err != nil {
 					return "", true, "NewXOF rejects valid arguments"
@@ -527,7 +528,7 @@ func g3(c *vf.Ctx, a *xalg) {
 			fs = append(fs, far{0, 65536/N - 2}, far{0, 65536 - 2}, far{0, 1<<31 - 1}, far{0, 1<<32 - 1})
 		}
 	}
-	c.ParallelFor(len(fs), func(i int) {
+	pfor(c, a.name+" section G3", len(fs), func(i int) {
 		f := fs[i]
 		for _, chunk := range []int{1, a.node - 1, a.node, a.node + 1, 3*a.node + 5} {
 			x, err := a.newXOF(f.size, key)
@@ -595,5 +596,25 @@ func g5(c *vf.Ctx, a *xalg) {
 	}
 	if _, err := a.newXOF(a.maxLen, nil); err != nil {
 		c.Violation(a.class("NewXOF rejects the maximal length"), err.Error())
+	}
+}
+
+// pfor is c.ParallelFor with every case guarded: a panic escaping the code under test
+// is recorded as a violation instead of crashing the run.
+func pfor(c *vf.Ctx, section string, n int, f func(i int)) {
+	c.ParallelFor(n, func(i int) {
+		if p, v, st := vf.Protect(func() { f(i) }); p {
+			if len(st) > 1500 {
+				st = st[:1500]
+			}
+			c.Violation(section+": unexpected panic in the code under test", map[string]any{"case_index": i, "panic": fmt.Sprint(v), "stack": st})
+		}
+	})
+}
+
+// recoverRun turns a panic inside a history into a mismatch of that history.
+func recoverRun(stop *bool, mis *string) {
+	if r := recover(); r != nil {
+		*stop, *mis = true, fmt.Sprintf("unexpected panic | %v", r)
 	}
 }
